@@ -240,11 +240,18 @@ theorem tieL_pointInPolygon (os ray : P → P → P → Bool) (pt : P) (pg : Pol
 
 /-! ### `pointInPolygonal` = `Point.Within` -/
 
+/-- `Polygons()` of `Polygon`, `MultiPolygon` and `*Bounds` as regenerated from polygon.go, multipolygon.go, bounds.go
+is the model's `Polygonal.polygons` -/
+theorem tieL_Polygons (pg : Polygonal) : GenL.Polygonal_Polygons pg = pg.polygons := by cases pg <;> rfl
+
+theorem C02_tie_Polygons : GenL.Polygonal_Polygons = Polygonal.polygons := funext tieL_Polygons
+
 /-- **T1 tie of the loops**: for ALL decision functions, the regenerated `pointInPolygonal` (with `ringBounds`,
 `extendPoints`, `pointInPolygon` regenerated below it) is the control flow `pointInPolygonalG` of the float theorems -/
 theorem tieL_pointInPolygonal (os ray : P → P → P → Bool) (pt : P) (pg : Polygonal) :
     GenL.pointInPolygonal os ray pt pg = pointInPolygonalG os ray pt pg := by
   unfold GenL.pointInPolygonal Go.forRange pointInPolygonalG
+  rw [tieL_Polygons]
   generalize pg.polygons = polys
   have key : ∀ (polys : List Poly) (i : Int) (inn : Status),
       (do let c ← Go.forRangeAux (ρ := Status) (fun in_ _ poly => do
